@@ -274,6 +274,7 @@ func run(c *runner.Ctx, idx int) {
 			}
 		}
 	case "sample-entry":
+		count(checkMultiTrackEntries(c, b.a))
 		fs := append(append([]int{}, tableFreqs...), explicitSet...)
 		for _, f := range fs {
 			if b.a != 2 && 2*f >= 1<<24 {
@@ -358,17 +359,17 @@ func makeJunk(r *runner.Rand, j, kind int) ([]byte, string) {
 func refADTS(obj, fi, ch, plen, full int) []byte {
 	w := &bitw.W{}
 	w.Put(0xfff, 12)
-	w.Put(0, 1)              // ID: MPEG-4
-	w.Put(0, 2)              // layer
-	w.Put(1, 1)              // protection_absent
-	w.Put(uint64(obj-1), 2)  // profile
-	w.Put(uint64(fi), 4)     // sampling_frequency_index
-	w.Put(0, 1)              // private
-	w.Put(uint64(ch), 3)     // channel_configuration
-	w.Put(0, 4)              // original/copy, home, copyright id bit, copyright id start
+	w.Put(0, 1)               // ID: MPEG-4
+	w.Put(0, 2)               // layer
+	w.Put(1, 1)               // protection_absent
+	w.Put(uint64(obj-1), 2)   // profile
+	w.Put(uint64(fi), 4)      // sampling_frequency_index
+	w.Put(0, 1)               // private
+	w.Put(uint64(ch), 3)      // channel_configuration
+	w.Put(0, 4)               // original/copy, home, copyright id bit, copyright id start
 	w.Put(uint64(plen+7), 13) // aac_frame_length
-	w.Put(uint64(full), 11)  // adts_buffer_fullness
-	w.Put(0, 2)              // number_of_raw_data_blocks_in_frame
+	w.Put(uint64(full), 11)   // adts_buffer_fullness
+	w.Put(0, 2)               // number_of_raw_data_blocks_in_frame
 	return w.Bytes()
 }
 
@@ -413,6 +414,37 @@ func checkADTS(c *runner.Ctx, obj, fi, ch, plen, full int, junk []byte, junkKind
 	if off != want {
 		c.Violation("adts/offset/"+cls, fmt.Sprintf("offset %d reported, sync word is at %d (junk %x)", off, want, junk), det)
 		return false
+	}
+	// the same header in its CRC form (protection_absent = 0, 9-byte header,
+	// ISO/IEC 13818-7 6.2): only the decoder handles it; frame_length covers
+	// header + CRC + payload
+	if plen+9 <= 8191 {
+		w := &bitw.W{}
+		w.Put(0xfff, 12)
+		w.Put(0, 1)
+		w.Put(0, 2)
+		w.Put(0, 1) // protection_absent = 0
+		w.Put(uint64(obj-1), 2)
+		w.Put(uint64(fi), 4)
+		w.Put(0, 1)
+		w.Put(uint64(ch), 3)
+		w.Put(0, 4)
+		w.Put(uint64(plen+9), 13)
+		w.Put(uint64(full), 11)
+		w.Put(0, 2)
+		w.Put(0xbeef, 16) // crc_check
+		crcStream := append(append(append([]byte{}, junk...), w.Bytes()...), 0x21, 0x00)
+		g2, off2, err2 := aac.DecodeADTSHeader(bytes.NewReader(crcStream))
+		wantH := h
+		wantH.HeaderLength = 9
+		if err2 != nil || g2 == nil {
+			c.Violation("adts-crc/decode-error/"+cls, fmt.Sprintf("DecodeADTSHeader of the CRC form (9-byte header) after %d junk bytes: %v", len(junk), err2), det)
+			return false
+		}
+		if *g2 != wantH || off2 != want {
+			c.Violation("adts-crc/decoded-header/"+cls, fmt.Sprintf("CRC form decoded as %+v at offset %d; the header says %+v at offset %d (frame_length = 9 + payload)", *g2, off2, wantH, want), det)
+			return false
+		}
 	}
 	return true
 }
@@ -464,6 +496,53 @@ func checkSampleEntry(c *runner.Ctx, obj, f int) bool {
 		}
 		if *got != want {
 			c.Violation("sample-entry/config/"+cls, fmt.Sprintf("%s: sample entry decodes to %+v, implied configuration %+v", path, *got, want), det)
+			return false
+		}
+	}
+	return true
+}
+
+// checkMultiTrackEntries builds ONE init segment with several AAC tracks of
+// different configurations (all SetAACDescriptor calls first, encode
+// afterwards) and reads every track's configuration back.
+func checkMultiTrackEntries(c *runner.Ctx, firstObj int) bool {
+	type tr struct{ obj, f int }
+	trs := []tr{{firstObj, 48000}, {2, 44100}, {5, 24000}, {29, 22050}, {2, 7350}, {firstObj, 12345}}
+	init := mp4.CreateEmptyInit()
+	for i, t := range trs {
+		init.AddEmptyTrack(uint32(t.f), "audio", "und")
+		if err := init.Moov.Traks[i].SetAACDescriptor(byte(t.obj), t.f); err != nil {
+			c.Violation("sample-entry/multi-track/set-error", fmt.Sprintf("SetAACDescriptor(%d,%d) on track %d: %v", t.obj, t.f, i+1, err), nil)
+			return false
+		}
+	}
+	var buf bytes.Buffer
+	if err := init.Encode(&buf); err != nil {
+		c.Violation("sample-entry/multi-track/encode-error", err.Error(), nil)
+		return false
+	}
+	file, err := mp4.DecodeFile(bytes.NewReader(buf.Bytes()))
+	if err != nil || file.Init == nil || len(file.Init.Moov.Traks) != len(trs) {
+		c.Violation("sample-entry/multi-track/decode-error", fmt.Sprintf("decoding an init with %d AAC tracks: %v", len(trs), err), nil)
+		return false
+	}
+	for i, t := range trs {
+		want := wantASC(t.obj, 2, t.f, 2*t.f)
+		if t.obj == 2 {
+			want = wantASC(t.obj, 2, t.f, 0)
+		}
+		if t.obj == 29 {
+			want.ChannelConfiguration = 1
+		}
+		stsd := file.Init.Moov.Traks[i].Mdia.Minf.Stbl.Stsd
+		if stsd.Mp4a == nil || stsd.Mp4a.Esds == nil || stsd.Mp4a.Esds.DecConfigDescriptor == nil || stsd.Mp4a.Esds.DecConfigDescriptor.DecSpecificInfo == nil {
+			c.Violation("sample-entry/multi-track/missing-descriptor", fmt.Sprintf("track %d has no mp4a/esds/DecSpecificInfo", i+1), nil)
+			return false
+		}
+		dc := stsd.Mp4a.Esds.DecConfigDescriptor.DecSpecificInfo.DecConfig
+		got, err := aac.DecodeAudioSpecificConfig(bytes.NewReader(dc))
+		if err != nil || got == nil || *got != want {
+			c.Violation("sample-entry/multi-track/config", fmt.Sprintf("init with %d AAC tracks: track %d (objType %d, %d Hz) reads back as %+v (%v); implied configuration %+v", len(trs), i+1, t.obj, t.f, got, err, want), nil)
 			return false
 		}
 	}
